@@ -134,6 +134,11 @@ _tmpdir = None
 def tmpdir():
     global _tmpdir
     if _tmpdir is None:
+        if os.environ.get("LSFVERIF_TMP") and os.path.isdir(os.environ["LSFVERIF_TMP"]):
+            # one scratch directory per check run, made and removed by the entry point (pool workers leave through os._exit and
+            # never run their own atexit handlers)
+            _tmpdir = os.environ["LSFVERIF_TMP"]
+            return _tmpdir
         base = "/dev/shm" if os.path.isdir("/dev/shm") else None
         _tmpdir = tempfile.mkdtemp(prefix="lsfverif-", dir=base)
         atexit.register(shutil.rmtree, _tmpdir, True)
